@@ -1,7 +1,8 @@
 (* C08 — one-shot server bootstrap connects two processes and leaves nothing behind (model: Server.v). *)
-From Coq Require Import List Arith Bool.
+From Coq Require Import List Arith Bool ZArith.
 From IPC Require Import U64 Params Server ServerProofs.
 Import ListNotations.
+Local Open Scope nat_scope.
 
 (* in EVERY order of {server created, client connects, client sends, client exits, accept, receiver reads}: what accept
    returned, then what the returned receiver read, then what is still queued, is exactly what the client sent, in order *)
@@ -47,6 +48,7 @@ Print Assumptions C08_no_connect_after_accept.
 (* the accept queue of the kernel is as long as the source asks for (GENERATED) - only one client is ever expected *)
 Theorem C08_backlog_tied : LISTEN_BACKLOG = 10%Z.
 Proof. reflexivity. Qed.
+Print Assumptions C08_backlog_tied.
 
 Example C08_ex :
   option_map (fun s => (got (gconn s 0), fs s, open_listeners s))
